@@ -316,6 +316,14 @@ class error_999_visitor(pyx12.error_visitor.error_visitor):
             seg_data.set('IK304', '8')
             self.wr.Write(seg_data)
 
+    def _contains_delimiter(self, value):
+        """
+        A value holding one of this acknowledgement's own delimiters cannot be
+        echoed: it would add or split elements or segments
+        """
+        terms = [self.seg_term, self.ele_term, self.subele_term, getattr(self, 'repetition_term', None)]
+        return any(t is not None and t in value for t in terms)
+
     def visit_ele(self, err_ele):
         """
         @param err_ele: Segment error handler
@@ -336,7 +344,7 @@ class error_999_visitor(pyx12.error_visitor.error_visitor):
             if err_cde in valid_IK4_codes:
                 seg_data = pyx12.segment.Segment(seg_str, '~', '*', ':')
                 seg_data.set('IK403', err_cde)
-                if bad_value:
+                if bad_value and not self._contains_delimiter(bad_value):
                     seg_data.set('IK404', bad_value)
 # todo: add element context
                 self.wr.Write(seg_data)
